@@ -307,6 +307,8 @@ def case_fn(ctx, inp):
     exact = fn not in ("average",)
     compare(ctx, fn, got, exp, exact, U.fsum_abs(np.ma.getdata(a)), fill=fill)
     branches(ctx, a, chunks)
+    if fn in ("masked_inside", "masked_outside") and args[0] > args[1]:
+        ctx.branch("bounds in reverse order")
     ctx.branch(fn)
 
 
@@ -329,7 +331,34 @@ def case_cum(ctx, inp):
     ctx.branch(method)
 
 
-CASES = {"construct": case_construct, "elemwise": case_elemwise, "reduce": case_reduce, "fn": case_fn, "cum": case_cum}
+def case_joint(ctx, inp):
+    """several different masked operations on the SAME array computed in one graph keep their own results"""
+    da = _da()
+    a = dec_ma(inp["a"])
+    x = da.from_array(a, chunks=tuple(tuple(c) for c in inp["chunks"]))
+    arrs = []
+    for it in inp["items"]:
+        f = it["fn"]
+        if f == "filled":
+            arrs.append(da.ma.filled(x, it["v"]))
+        elif f in ("masked_greater", "masked_less", "masked_equal", "masked_not_equal"):
+            arrs.append(getattr(da.ma, f)(x, it["v"]))
+        elif f in ("masked_inside", "masked_outside"):
+            arrs.append(getattr(da.ma, f)(x, it["v"], it["w"]))
+        elif f == "masked_where":
+            arrs.append(da.ma.masked_where(da.from_array(np.array(it["cond"], dtype=bool).reshape(a.shape), chunks=x.chunks), x))
+        elif f == "count":
+            arrs.append(da.ma.count(x, axis=it["axis"]))
+        else:
+            arrs.append(getattr(da, f)(x, axis=it["axis"], keepdims=it.get("keepdims", False)))
+    bad = U.joint_vs_solo(arrs)
+    for i in bad:
+        ctx.fail("a masked operation computed together with others differs from the same operation computed alone",
+                 observed={"item": inp["items"][i], "name": arrs[i].name})
+    ctx.branch(f"joint×{len(arrs)}")
+
+
+CASES = {"joint": case_joint, "construct": case_construct, "elemwise": case_elemwise, "reduce": case_reduce, "fn": case_fn, "cum": case_cum}
 
 
 # ---------------------------------------------------------------------------------------------
@@ -406,6 +435,7 @@ def generate(ctx):
         yield "reduce", {"a": gen_ma(rng, shape, chunks, kind), "chunks": [list(c) for c in chunks], "op": op, "axis": axis,
                          "keepdims": rng.random() < 0.3, "split_every": se}
     fns = ["filled", "filled", "getmaskarray", "getdata", "masked_where", "masked_where", "masked_inside", "masked_outside",
+           "masked_inside", "masked_outside", "masked_inside", "masked_outside",
            "masked_invalid", "masked_equal", "masked_greater", "masked_greater_equal", "masked_less", "masked_less_equal",
            "masked_not_equal", "masked_values", "fix_invalid", "set_fill_value", "average"]
     for _ in range(ctx.n(240, 2400)):
@@ -421,7 +451,9 @@ def generate(ctx):
         if fn == "filled":
             inp["args"] = [] if rng.random() < 0.4 else [rng.choice([0, -7, 42])]
         elif fn in ("masked_inside", "masked_outside"):
-            v1, v2 = rng.randint(-3, 3), rng.randint(-3, 3)
+            v1, v2 = rng.randint(-3, 3), rng.randint(-3, 3)      # either order: numpy.ma accepts reversed bounds
+            if rng.random() < 0.3:
+                v1, v2 = max(v1, v2) + 1, min(v1, v2)
             inp["args"] = [v1, v2]
         elif fn in ("masked_equal", "masked_greater", "masked_greater_equal", "masked_less", "masked_less_equal", "masked_not_equal", "masked_values"):
             inp["args"] = [rng.randint(-2, 2)]
@@ -435,6 +467,19 @@ def generate(ctx):
         elif fn == "average":
             inp["axis"] = rng.choice([None] + list(range(len(shape))))
         yield "fn", inp
+    for _ in range(ctx.n(50, 500)):
+        shape = U.rand_shape(rng, 2, 5)
+        chunks = U.rand_chunks(rng, shape)
+        items = []
+        for _ in range(rng.randint(3, 6)):
+            f = rng.choice(["filled", "filled", "masked_greater", "masked_less", "masked_equal", "masked_inside", "masked_outside",
+                            "masked_where", "count", "sum", "min", "max", "mean"])
+            it = {"fn": f, "v": rng.randint(-2, 2), "w": rng.randint(-2, 2), "axis": rng.choice([None] + list(range(len(shape)))),
+                  "keepdims": rng.random() < 0.3}
+            if f == "masked_where":
+                it["cond"] = [rng.random() < 0.4 for _ in range(U.prod_shape(shape))]
+            items.append(it)
+        yield "joint", {"a": gen_ma(rng, shape, chunks), "chunks": [list(c) for c in chunks], "items": items}
     for _ in range(ctx.n(120, 1200)):
         shape = U.rand_shape(rng, 2, 6) if rng.random() < 0.4 else (rng.randint(1, 10),)
         chunks = U.rand_chunks(rng, shape, zero_p=0.1)
